@@ -15,8 +15,8 @@
 (***************************************************************************)
 EXTENDS Integers, Sequences, FiniteSets, TLC, Json, IOUtils
 Rec == ndJsonDeserialize(IOEnv.TRACE)
-VARIABLES l, calls, val, running, cut, srvEnded, oversized, undec, consumed, bad
-vars == <<l, calls, val, running, cut, srvEnded, oversized, undec, consumed, bad>>
+VARIABLES l, calls, val, running, cut, srvEnded, oversized, undec, consumed, clients, bad
+vars == <<l, calls, val, running, cut, srvEnded, oversized, undec, consumed, clients, bad>>
 Ev == Rec[l]
 Checked(p) == IOEnv.CHECK = "ALL" \/ p = IOEnv.CHECK \/ p = "TOOL"
 Flag(p, why) == IF bad = <<>> /\ Checked(p) /\ PrintT("VIOLATION property=" \o p \o " line=" \o ToString(l) \o " reason=" \o why) THEN <<p, why, l>> ELSE bad
@@ -26,20 +26,22 @@ FirstOf(cs) == IF cs = <<>> THEN bad
                ELSE IF cs[1][1] /\ Checked(cs[1][2]) THEN Flag(cs[1][2], cs[1][3]) ELSE FirstOf(Tail(cs))
 Is(e) == l <= Len(Rec) /\ Ev.ev = e /\ l' = l + 1
 Put(f, k, v) == IF k \in DOMAIN f THEN [f EXCEPT ![k] = v] ELSE f @@ (k :> v)
-Mut(m) == m \in {"add", "add_nc", "hang"}
+Mut(m) == m \in {"add", "add_nc", "hang", "take", "take_hang"}      \* exclusive access to the target
 Cancellable(m) == m # "add_nc"
 \* calls[c] = [m, k, cl, ep, st: "pending"|"ok"|"err"|"cancel", runs, xst: "none"|"run"|"end"|"drop", ret, polls]
 Known(c) == c \in DOMAIN calls
-Healthy == ~cut /\ ~srvEnded /\ ~consumed
+\* cut = set of endpoints whose connection to the server failed; a call is healthy if its caller's connection is
+HealthyEp(ep) == ep \notin cut /\ ~srvEnded /\ ~consumed
+Healthy == cut = {} /\ ~srvEnded /\ ~consumed
 
-Init == l = 1 /\ calls = <<>> /\ val = 0 /\ running = {} /\ cut = FALSE /\ srvEnded = FALSE /\ oversized = FALSE /\ undec = FALSE /\ consumed = FALSE /\ bad = <<>>
-Reset == /\ Is("reset") /\ calls' = <<>> /\ val' = 0 /\ running' = {} /\ cut' = FALSE /\ srvEnded' = FALSE /\ oversized' = FALSE /\ undec' = FALSE
-         /\ consumed' = FALSE /\ bad' = bad
+Init == l = 1 /\ calls = <<>> /\ val = 0 /\ running = {} /\ cut = {} /\ srvEnded = FALSE /\ oversized = FALSE /\ undec = FALSE /\ consumed = FALSE /\ clients = <<>> /\ bad = <<>>
+Reset == /\ Is("reset") /\ calls' = <<>> /\ val' = 0 /\ running' = {} /\ cut' = {} /\ srvEnded' = FALSE /\ oversized' = FALSE /\ undec' = FALSE
+         /\ consumed' = FALSE /\ clients' = <<>> /\ bad' = bad
 Call == /\ Is("c_call")
         /\ calls' = Put(calls, Ev.call, [m |-> Ev.m, k |-> Ev.k, cl |-> Ev.cl, ep |-> Ev.ep, st |-> "pending", runs |-> 0, xst |-> "none", ret |-> 0, polls |-> Ev.polls])
         \* requests and replies of local callers are never encoded: only remote callers (ep 2) can be undecodable / oversized
         /\ undec' = (undec \/ (Ev.ep = 2 /\ (Ev.m = "extra" \/ (Ev.m = "picky" /\ Ev.k = 1))))
-        /\ UNCHANGED <<val, running, cut, srvEnded, oversized, consumed, bad>>
+        /\ UNCHANGED <<val, running, cut, srvEnded, oversized, consumed, clients, bad>>
 XStart == /\ Is("x_start")
           /\ LET c == Ev.call  k == Known(c)  it == IF k THEN calls[c] ELSE [m |-> "", runs |-> 0] IN
              /\ calls' = IF k THEN [calls EXCEPT ![c].runs = @ + 1, ![c].xst = "run"] ELSE calls
@@ -51,7 +53,7 @@ XStart == /\ Is("x_start")
                   <<\E d \in running : Mut(calls[d].m), "C12", "an execution started while a mutable method was executing (not atomic)">>,
                   <<Mut(Ev.m) /\ running # {}, "C12", "a mutable method started while another execution was in progress (not atomic)">>,
                   <<Ev.val # val, "C12", "execution observed a target state that is not the result of the executions completed before it">> >>)
-          /\ UNCHANGED <<val, cut, srvEnded, oversized, undec, consumed>>
+          /\ UNCHANGED <<val, cut, srvEnded, oversized, undec, consumed, clients>>
 XEnd == /\ Is("x_end")
         /\ LET c == Ev.call  k == Known(c)  it == IF k THEN calls[c] ELSE [m |-> "", k |-> 0, ep |-> 0] IN
            /\ calls' = IF k THEN [calls EXCEPT ![c].xst = "end", ![c].ret = Ev.ret] ELSE calls
@@ -64,14 +66,14 @@ XEnd == /\ Is("x_end")
                 <<Ev.before # val, "C12", "target state changed under a running execution (not atomic)">>,
                 <<Ev.m \in {"add", "add_nc"} /\ Ev.after # val + it.k, "C12", "mutation result is not state + argument: arguments mixed up or update lost">>,
                 <<Ev.m \in {"get", "take", "picky"} /\ (Ev.after # val \/ Ev.ret # val), "C12", "read result differs from the target state">> >>)
-        /\ UNCHANGED <<cut, srvEnded, undec>>
+        /\ UNCHANGED <<cut, srvEnded, undec, clients>>
 XDrop == /\ Is("x_drop")
          /\ LET c == Ev.call  k == Known(c) IN
             /\ calls' = IF k THEN [calls EXCEPT ![c].xst = "drop"] ELSE calls
             /\ running' = running \ {c}
             /\ bad' = FirstOf(<<
-                 <<k /\ calls[c].m = "add_nc" /\ Healthy /\ ~oversized, "C19", "execution of a non-cancellable method was abandoned">> >>)
-         /\ UNCHANGED <<val, cut, srvEnded, oversized, undec, consumed>>
+                 <<k /\ calls[c].m = "add_nc" /\ ~srvEnded /\ ~oversized, "C19", "execution of a non-cancellable method was abandoned">> >>)
+         /\ UNCHANGED <<val, cut, srvEnded, oversized, undec, consumed, clients>>
 Ret == /\ Is("c_ret")
        /\ LET c == Ev.call  it == calls[c]
               wellFormed == it.m \in {"get", "add", "add_nc"} IN
@@ -83,34 +85,39 @@ Ret == /\ Is("c_ret")
                        <<it.m = "big" /\ Ev.v > 300 /\ it.ep = 2, "C19", "a reply over the size limit was delivered">>,
                        <<it.ep = 2 /\ (it.m = "extra" \/ (it.m = "picky" /\ it.k = 1)), "C19", "an undecodable or unknown request returned a result">> >>)
                     ELSE FirstOf(<<
-                       <<wellFormed /\ Healthy /\ oversized, "C19", "oversized reply: an unrelated call failed after a reply exceeded the size limit">>,
-                       <<wellFormed /\ Healthy /\ ~oversized /\ undec, "C19", "an unrelated call failed after an undecodable or unknown request">>,
-                       <<wellFormed /\ Healthy /\ ~oversized /\ ~undec, "C19", "a well-formed call failed although server and connection are healthy">>,
-                       <<wellFormed /\ Healthy /\ ~oversized /\ ~undec, "C12", "a well-formed call failed although server and connection are healthy">> >>)
-          /\ UNCHANGED <<val, running, cut, srvEnded, oversized, undec, consumed>>
+                       <<wellFormed /\ HealthyEp(it.ep) /\ oversized, "C19", "oversized reply: an unrelated call failed after a reply exceeded the size limit">>,
+                       <<wellFormed /\ HealthyEp(it.ep) /\ ~oversized /\ undec, "C19", "an unrelated call failed after an undecodable or unknown request">>,
+                       <<wellFormed /\ HealthyEp(it.ep) /\ ~oversized /\ ~undec, "C19", "a well-formed call failed although the server and the caller's connection are healthy">>,
+                       <<wellFormed /\ HealthyEp(it.ep) /\ ~oversized /\ ~undec, "C12", "a well-formed call failed although the server and the caller's connection are healthy">> >>)
+          /\ UNCHANGED <<val, running, cut, srvEnded, oversized, undec, consumed, clients>>
 Cancel == /\ Is("c_cancel") /\ calls' = [calls EXCEPT ![Ev.call].st = "cancel"]
-          /\ UNCHANGED <<val, running, cut, srvEnded, oversized, undec, consumed, bad>>
-Fault == /\ Is("fault") /\ cut' = TRUE /\ UNCHANGED <<calls, val, running, srvEnded, oversized, undec, consumed, bad>>
+          /\ UNCHANGED <<val, running, cut, srvEnded, oversized, undec, consumed, clients, bad>>
+CNew == /\ Is("c_new") /\ clients' = Put(clients, Ev.cl, [ep |-> Ev.ep, done |-> FALSE])
+        /\ UNCHANGED <<calls, val, running, cut, srvEnded, oversized, undec, consumed, bad>>
+CDone == /\ Is("c_done") /\ clients' = IF Ev.cl \in DOMAIN clients THEN [clients EXCEPT ![Ev.cl].done = TRUE] ELSE clients
+         /\ UNCHANGED <<calls, val, running, cut, srvEnded, oversized, undec, consumed, bad>>
+Fault == /\ Is("fault") /\ cut' = cut \cup {IF "ep" \in DOMAIN Ev THEN Ev.ep ELSE 2} /\ UNCHANGED <<calls, val, running, srvEnded, oversized, undec, consumed, clients, bad>>
 SrvEnd == /\ Is("srv_end") /\ srvEnded' = TRUE
-          /\ LET clientsLeft == \E c \in DOMAIN calls : calls[c].st = "pending" IN
+          /\ LET clientsLeft == \E c \in DOMAIN clients : ~clients[c].done /\ clients[c].ep \notin cut IN
              bad' = FirstOf(<<
-                <<~Ev.ok /\ oversized /\ ~cut, "C19", "oversized reply: the server stopped serving after a reply exceeded the size limit">>,
-                <<~Ev.ok /\ ~oversized /\ ~cut, "C19", "the server stopped serving with an error although no connection was lost">> >>)
-          /\ UNCHANGED <<calls, val, running, cut, oversized, undec, consumed>>
+                <<~Ev.ok /\ oversized /\ cut = {}, "C19", "oversized reply: the server stopped serving after a reply exceeded the size limit">>,
+                <<~Ev.ok /\ ~oversized /\ cut = {}, "C19", "the server stopped serving with an error although no connection was lost">>,
+                <<clientsLeft /\ ~oversized /\ ~consumed, "C19", "the server stopped serving while clients on healthy connections were still connected">> >>)
+          /\ UNCHANGED <<calls, val, running, cut, oversized, undec, consumed, clients>>
 ClientsEnd == /\ Is("r_clients_end")
               /\ bad' = FirstOf(<<
                    <<Ev.pending > 0 /\ oversized, "C19", "oversized reply: calls never completed after a reply exceeded the size limit">>,
                    <<Ev.pending > 0, "C19", "calls never completed: the server is wedged or a call was lost">>,
                    <<Ev.pending > 0, "C12", "a call never completed with an outcome">> >>)
-              /\ UNCHANGED <<calls, val, running, cut, srvEnded, oversized, undec, consumed>>
+              /\ UNCHANGED <<calls, val, running, cut, srvEnded, oversized, undec, consumed, clients>>
 End == /\ Is("r_end")
        /\ bad' = FirstOf(<<
-            <<Ev.server_pending > 0 /\ Ev.pending = 0 /\ ~cut, "C19", "the server did not end after all of its clients were dropped">>,
-            <<\E c \in DOMAIN calls : calls[c].m = "add_nc" /\ calls[c].xst = "run" /\ ~cut /\ ~oversized /\ Ev.server_pending = 0, "C19", "a non-cancellable execution never finished">> >>)
-       /\ UNCHANGED <<calls, val, running, cut, srvEnded, oversized, undec, consumed>>
-KnownEv == {"reset", "c_call", "x_start", "x_end", "x_drop", "c_ret", "c_cancel", "fault", "srv_end", "r_clients_end", "r_end"}
-Skip == /\ l <= Len(Rec) /\ Ev.ev \notin KnownEv /\ l' = l + 1 /\ UNCHANGED <<calls, val, running, cut, srvEnded, oversized, undec, consumed, bad>>
-Next == Reset \/ Call \/ XStart \/ XEnd \/ XDrop \/ Ret \/ Cancel \/ Fault \/ SrvEnd \/ ClientsEnd \/ End \/ Skip
+            <<Ev.server_pending > 0 /\ Ev.pending = 0 /\ cut = {}, "C19", "the server did not end after all of its clients were dropped">>,
+            <<\E c \in DOMAIN calls : calls[c].m = "add_nc" /\ calls[c].xst = "run" /\ cut = {} /\ ~oversized /\ Ev.server_pending = 0, "C19", "a non-cancellable execution never finished">> >>)
+       /\ UNCHANGED <<calls, val, running, cut, srvEnded, oversized, undec, consumed, clients>>
+KnownEv == {"c_new", "c_done", "reset", "c_call", "x_start", "x_end", "x_drop", "c_ret", "c_cancel", "fault", "srv_end", "r_clients_end", "r_end"}
+Skip == /\ l <= Len(Rec) /\ Ev.ev \notin KnownEv /\ l' = l + 1 /\ UNCHANGED <<calls, val, running, cut, srvEnded, oversized, undec, consumed, clients, bad>>
+Next == CNew \/ CDone \/ Reset \/ Call \/ XStart \/ XEnd \/ XDrop \/ Ret \/ Cancel \/ Fault \/ SrvEnd \/ ClientsEnd \/ End \/ Skip
 Spec == Init /\ [][Next]_vars
 Inv_C12 == bad = <<>> \/ bad[1] # "C12"
 Inv_C19 == bad = <<>> \/ bad[1] # "C19"
